@@ -805,6 +805,9 @@ void dispenso_verif_point(const char* site, const void* obj) {
 
 void dispenso_verif_note(const char* site, const void* obj, long long a, long long b) {
   (void)obj;
+  // library NOTE hooks of components the driver does not model (site filter) are dropped, like their points
+  if (g_filter && !g_filter(site))
+    return;
   if (tlsMe && g_mode.load(std::memory_order_relaxed) >= 0 &&
       g_mode.load(std::memory_order_relaxed) != RunOptions::Free) {
     Json j;
